@@ -662,7 +662,36 @@ impl ClientModel {
         }
         self.effects.push(Effect::Wire(self.now, o.frame.clone()));
         o.deadline = self.now.saturating_add(o.spec.timeout);
+        let due_now = o.deadline <= self.now;
         self.outstanding = Some(o);
+        if due_now {
+            // a time-out of zero: the deadline is the instant of transmission, and a reply is only in
+            // time *strictly before* the deadline - even one that is already buffered comes too late.
+            // What is buffered is then read while idle (and dropped) before the next command is taken
+            let o = self.outstanding.take().unwrap();
+            self.effects.push(Effect::Complete {
+                id: o.spec.id,
+                at: self.now,
+                outcome: Outcome::Timeout,
+            });
+            self.timeouts += 1;
+            if let Some(max) = self.max_timeouts {
+                if self.timeouts >= max {
+                    self.lost();
+                }
+            }
+            if self.transport == Transport::Rtu {
+                self.rtu_drain();
+            }
+            if let Some(Some(k)) = self.inbound_eof.take() {
+                if self.phase == Phase::Connected {
+                    self.peer_eof(Some(k));
+                    return;
+                }
+            }
+            self.pump();
+            return;
+        }
         // anything that arrived while we were not reading
         if self.transport == Transport::Rtu {
             self.rtu_drain();
